@@ -260,6 +260,39 @@ def gen_script(rng, mode="local", size=None):
     return {"cfg": {"mode": mode, "nsrc": nsrc}, "script": s, "flavour": mode}
 
 
+def gen_burst(rng, mode="local"):
+    """A long backlog on one barrier: 150-300 matching triggers (async and synchronous, from several
+    sources; in sim mode also from the fs corruption hook) are issued before the test waits at all,
+    then everything is waited for.  Overlapping Noop / Suspend barriers around the observed one."""
+    nsrc = rng.choice([2, 3, 4])
+    s = []
+    ty = 2 if (mode == "sim" and rng.random() < 0.5) else rng.choice([0, 1])
+    first = rng.choice(["noop", "noop", "suspend_narrow"])
+    if first == "suspend_narrow":
+        s.append(["build", ty if ty != 2 else 0, "suspend", ["eq", 7]])     # earlier barrier, takes only value 7
+    s.append(["build", ty, "noop", rng.choice([["any"], ["gt", 0], ["mod", 2, 1]])])
+    main = len(s) - 1
+    s.append(["build", ty, "noop", ["any"]])                                  # later barrier, gets what the main one rejects
+    n = rng.randrange(150, 301)
+    for i in range(n):
+        src = rng.randrange(nsrc)
+        v = rng.randrange(1, 7) if rng.random() < 0.95 else 7
+        if ty == 2:
+            s.append(["corrupt_read", src, v])
+        elif mode == "sim" or rng.random() < 0.5:
+            s.append(["trigger", src, ty, v])
+        else:
+            s.append(["trigger_noop", src, ty, v])
+        if rng.random() < 0.01:
+            s.append(["wait", main + 1])
+    for b in range(len(s) and main + 2):
+        for _ in range(n + 2 if b == main else rng.choice([3, n // 2])):
+            s.append(["wait", b])
+    for h in range(3):
+        s.append(["drop_handle", h])
+    return {"cfg": {"mode": mode, "nsrc": nsrc}, "script": s, "flavour": "burst-" + mode}
+
+
 def exhaustive_small():
     """Two overlapping barriers with every pair of reactions, two sources, a fixed
     interleaving skeleton with every order of handle drop / barrier drop."""
